@@ -69,13 +69,17 @@ Definition random_range_list (start stop v0 o0 : Z) : result (list Z) :=
 
 (* -------- UpdatableRandomRange -------- *)
 
+(* random_range is a Python generator: its body — including the two randint draws — only
+   runs at the first next().  GNew = created, not yet started. *)
+Inductive gstate := GNew (a b : Z) | GRun (g : lcg).
+
 Record urr := mkUrr {
   u_start : Z;                  (* self.start: first minimum of the current chain of ranges *)
   u_min : Z;
   u_orig_max : Z;
   u_cur_max : Z;
-  u_gen : lcg;
-  u_oracle : list (Z * Z)       (* remaining (v0,o0) draws for future generators *)
+  u_gen : gstate;
+  u_oracle : list (Z * Z)       (* remaining (v0,o0) draws for generators not yet started *)
 }.
 
 Definition assertion {A} : result A := Err (Internal "AssertionError").
@@ -83,12 +87,7 @@ Definition assertion {A} : result A := Err (Internal "AssertionError").
 (* _set_new_range_immediately *)
 Definition set_immediately (new_min new_max : Z) (oracle : list (Z * Z)) : result urr :=
   if negb (new_min <? new_max) then assertion
-  else match oracle with
-       | [] => Err BadOracle
-       | (v0, o0) :: rest =>
-         do g <- new_gen new_min new_max v0 o0;
-         Ok (mkUrr new_min new_min new_max new_max g rest)
-       end.
+  else Ok (mkUrr new_min new_min new_max new_max (GNew new_min new_max) oracle).
 
 (* UpdatableRandomRange(start, stop) *)
 Definition urr_init (start stop : Z) (oracle : list (Z * Z)) : result urr :=
@@ -103,24 +102,39 @@ Definition urr_set_new_range (u : urr) (new_min new_max : Z) : result urr :=
     if negb (u_orig_max u <=? new_min) then assertion
     else set_immediately new_min new_max (u_oracle u).
 
+(* start the generator if it has not run yet *)
+Definition force (u : urr) : result (lcg * list (Z * Z)) :=
+  match u_gen u with
+  | GRun g => Ok (g, u_oracle u)
+  | GNew a b =>
+    match u_oracle u with
+    | [] => Err BadOracle
+    | (v0, o0) :: rest => do g <- new_gen a b v0 o0; Ok (g, rest)
+    end
+  end.
+
 (* __next__: Ok (None, u) = StopIteration *)
 Definition urr_next (u : urr) : result (option Z * urr) :=
-  do r <- gen_next (gen_fuel (u_gen u)) (u_gen u);
+  do '(g0, orc) <- force u;
+  do r <- gen_next (gen_fuel g0) g0;
   match r with
-  | Some (v, g') => Ok (Some v, mkUrr (u_start u) (u_min u) (u_orig_max u) (u_cur_max u) g' (u_oracle u))
+  | Some (v, g') =>
+    Ok (Some v, mkUrr (u_start u) (u_min u) (u_orig_max u) (u_cur_max u) (GRun g') orc)
   | None =>
-    if u_cur_max u <=? u_orig_max u then Ok (None, u)
-    else match u_oracle u with
+    if u_cur_max u <=? u_orig_max u
+    then Ok (None, mkUrr (u_start u) (u_min u) (u_orig_max u) (u_cur_max u) (GRun g0) orc)
+    else match orc with
          | [] => Err BadOracle
          | (v0, o0) :: rest =>
            do g <- new_gen (u_orig_max u) (u_cur_max u) v0 o0;
            do r2 <- gen_next (gen_fuel g) g;
            match r2 with
-           | Some (v, g') => Ok (Some v, mkUrr (u_start u) (u_orig_max u) (u_cur_max u) (u_cur_max u) g' rest)
-           | None => Ok (None, mkUrr (u_start u) (u_orig_max u) (u_cur_max u) (u_cur_max u) g rest)
-                     (* next(gen) raising StopIteration; unreachable because
-                        cur_max > orig_max makes the new range non-empty
-                        (proofs/RandRangeP.v, urr_next_switch_yields) *)
+           | Some (v, g') =>
+             Ok (Some v, mkUrr (u_start u) (u_orig_max u) (u_cur_max u) (u_cur_max u) (GRun g') rest)
+           | None =>
+             Ok (None, mkUrr (u_start u) (u_orig_max u) (u_cur_max u) (u_cur_max u) (GRun g) rest)
+             (* next(gen) raising StopIteration; unreachable because cur_max > orig_max makes
+                the new range non-empty (proofs/RandRangeP.v, urr_next_inv) *)
            end
          end
   end.
